@@ -62,7 +62,8 @@ pub fn reserialise_oracle(b: &[u8], case: &mut Case) -> Result<bool, Fail> {
             }
         }
     }
-    for compressed in [false, true] {
+    // (each form twice: a received packet that has been written once is written the same way again)
+    for compressed in [false, true, false, true] {
         let what = if compressed { "build_bytes_vec_compressed" } else { "build_bytes_vec" };
         let out = if compressed { lib(what, || p1.build_bytes_vec_compressed())? } else { lib(what, || p1.build_bytes_vec())? };
         let out = out.map_err(|e| Fail::new("c11:rebuild-failed", format!("{} failed on a parsed packet: {:?}; input {}", what, e, hex(&b[..b.len().min(120)]))))?;
